@@ -8,14 +8,15 @@ EXTENDS Chan, Json, IOUtils
 VARIABLES l, nodeOf,  \* position in the trace;  [chan -> <<node of side 1, node of side 2>>]
           saved,      \* [<<node, k>> -> Snapshot]  abstract state at each ChannelManager snapshot
           everRAA,    \* [endpoint -> number of revocations ever released]  (survives restarts)
-          projB       \* last projection logged per node (for the reload round trip)
+          projB,      \* last projection logged per node (for the reload round trip)
+          fw          \* forwarding observer (C02): [adds, downFul, upClaimed, settledNow, base0, pol]
 
 Rec == ndJsonDeserialize(IOEnv.TRACE)
-tvars == <<cvars, l, nodeOf, saved, everRAA, projB>>
+tvars == <<cvars, l, nodeOf, saved, everRAA, projB, fw>>
 
 R == Rec[l]
 IsEvent(e) == l <= Len(Rec) /\ Rec[l].ev = e /\ l' = l + 1
-Aux == <<nodeOf, saved, everRAA, projB>>
+Aux == <<nodeOf, saved, everRAA, projB, fw>>
 Stutter == UNCHANGED <<cvars, Aux>>
 Closed(e) == link[e] = "closed"
 EPsOf(n) == {e \in DOMAIN link : nodeOf[e[1]][e[2]] = n}
@@ -33,6 +34,7 @@ NoDup(c) == Cardinality(ToSet(c.nondust)) = Len(c.nondust) /\ Cardinality(ToSet(
 
 TraceInit ==
   /\ l = 1 /\ nodeOf = <<>> /\ saved = <<>> /\ everRAA = <<>> /\ projB = <<>>
+  /\ fw = [adds |-> {}, downFul |-> {}, upClaimed |-> {}, settledNow |-> {}, base0 |-> <<>>, pol |-> <<>>]
   /\ par = <<>> /\ cnt = <<>> /\ hs = <<>> /\ fees = <<>> /\ feeBase = <<>> /\ base = <<>>
   /\ link = <<>> /\ redo = <<>> /\ lastCS = <<>> /\ order = <<>> /\ pts = <<>> /\ mon = <<>>
   /\ ownExp = <<>>
@@ -63,16 +65,42 @@ TOpen ==
         /\ ownExp' = [e \in E |-> <<>>]
         /\ everRAA' = [e \in E |-> 0]
         /\ saved' = <<>> /\ projB' = <<>>
+        /\ fw' = [adds |-> {}, downFul |-> {}, upClaimed |-> {}, settledNow |-> {},
+                   base0 |-> [e \in E |-> IF e[2] = 1 THEN cs[ch(e[1])].bal_a_msat ELSE cs[ch(e[1])].bal_b_msat],
+                   pol |-> R.policy]
 
 \* not part of the commitment protocol; `warning` / `disconnect_peer` ask the transport to drop the
 \* peer (the harness then disconnects, as PeerManager would) -- an `error` is never acceptable
 Ignored == {"channel_ready", "announcement_signatures", "channel_update", "warning", "disconnect_peer"}
 
 \* ---- a message leaves node R.from
+\* ---- forwarding observer (C02)
+UpAdds(n, h) == {a \in fw.adds : a.node = n /\ a.dir = "in" /\ a.hash = h}
+OutLive(n, h) == \E e \in EPsOf(n) : ~Closed(e) /\ \E x \in hs[e] : x.dir = "out" /\ x.hash = h
+AnyClosed(n) == \E e \in EPsOf(n) : Closed(e)
+Policy(n) == fw.pol[n + 1]
+\* B offers downstream no more than it was offered upstream less its advertised fee and CLTV delta
+ForwardTerms(n, amt, cltv, h) ==
+  UpAdds(n, h) = {} \/ \E u \in UpAdds(n, h) :
+     /\ amt + Policy(n).fee_base + (amt * Policy(n).fee_ppm) \div 1000000 <= u.amt
+     /\ cltv + Policy(n).cltv_delta <= u.cltv
+\* B fails upstream only when the downstream HTLC can no longer be claimed by the next hop
+MayFailUp(n, e, id) ==
+  LET h == Get(e, "in", id).hash IN
+  Has(e, "in", id) => (AnyClosed(n) \/ (<<n, h>> \notin fw.downFul /\ ~OutLive(n, h)))
+
 Harmless == Ignored \cup {"error", "channel_reestablish"}
 TMsg ==
   /\ IsEvent("msg")
   /\ UNCHANGED <<nodeOf, saved, projB>>
+  /\ fw' = IF R.chan = 0 THEN fw ELSE
+            IF R.kind = "update_add_htlc"
+            THEN [fw EXCEPT !.adds = @ \cup {[node |-> R.from, chan |-> R.chan, dir |-> "out", hash |-> R.hash, amt |-> R.amt, cltv |-> R.cltv]}]
+            ELSE IF R.kind = "update_fulfill_htlc" THEN [fw EXCEPT !.upClaimed = @ \cup {<<R.from, R.hash>>}]
+            ELSE fw
+  /\ (R.chan # 0 /\ R.kind = "update_add_htlc") => G2(ForwardTerms(R.from, R.amt, R.cltv, R.hash))
+  /\ (R.chan # 0 /\ R.kind \in {"update_fail_htlc", "update_fail_malformed_htlc"} /\ ~Closed(EP(R.chan, R.from)))
+        => G2(MayFailUp(R.from, EP(R.chan, R.from), R.id))
   /\ LET k == R.kind  e == EP(R.chan, R.from) IN
      IF R.chan = 0 THEN UNCHANGED cvars ELSE
      IF Closed(e) THEN G10(k \in Harmless) /\ UNCHANGED cvars ELSE    \* a closed channel is never resumed
@@ -95,7 +123,15 @@ TMsg ==
 \* ---- a message is handed to node R.to
 TDeliver ==
   /\ IsEvent("deliver")
-  /\ UNCHANGED Aux
+  /\ UNCHANGED <<nodeOf, saved, everRAA, projB>>
+  /\ fw' = IF R.chan = 0 THEN fw ELSE
+            IF R.kind = "update_add_htlc"
+            THEN [fw EXCEPT !.adds = @ \cup {[node |-> R.to, chan |-> R.chan, dir |-> "in", hash |-> R.hash, amt |-> R.amt, cltv |-> R.cltv]}]
+            ELSE IF R.kind = "update_fulfill_htlc" THEN [fw EXCEPT !.downFul = @ \cup {<<R.to, R.hash>>}]
+            ELSE IF R.kind = "revoke_and_ack" /\ ~Closed(EP(R.chan, R.to))
+                 THEN \* fulfilled outbound HTLCs whose removal this revocation makes irrevocable
+                      [fw EXCEPT !.settledNow = {<<EP(R.chan, R.to), x.hash>> : x \in {y \in hs[EP(R.chan, R.to)] : y.dir = "out" /\ y.rem = 3 /\ y.res = "fulfill"}}]
+            ELSE fw
   /\ LET k == R.kind  e == EP(R.chan, R.to) IN
      IF R.chan = 0 \/ Closed(e) THEN UNCHANGED cvars ELSE
      IF k = "error" \/ (k = "channel_reestablish" /\ Closed(Peer(e))) THEN
@@ -133,6 +169,11 @@ TPersist ==
              \* a stored revocation secret is the one for the commitment just revoked
              /\ \A k \in StepsOf("commitment_secret") : G5(R.steps[k].idx = cnt[e].recvRAA - 1)
              /\ \A k \in StepsOf("force_closed") : G1(FALSE)
+             \* C02: before the downstream monitor forgets a fulfilled HTLC the preimage is durable upstream
+             /\ \A k \in StepsOf("commitment_secret") : \A sh \in fw.settledNow :
+                   (sh[1] = e) => \A u \in UpAdds(R.node, sh[2]) :
+                      LET ue == EP(u.chan, R.node) IN
+                      Closed(ue) \/ G2(sh[2] \in DOMAIN mon[ue].pre /\ Durable(ue, mon[ue].pre[sh[2]]))
 
 TComplete == /\ IsEvent("complete") /\ UNCHANGED Aux
              /\ IF Closed(EP(R.chan, R.node)) THEN UNCHANGED cvars ELSE Complete(EP(R.chan, R.node), R.id)
@@ -158,7 +199,7 @@ TMgrSnap ==
   /\ IsEvent("mgr_snap")
   /\ saved' = [k \in DOMAIN saved \cup {<<R.node, R.k>>} |->
                  IF k = <<R.node, R.k>> THEN Snapshot(EPsOf(R.node)) ELSE saved[k]]
-  /\ UNCHANGED <<cvars, nodeOf, everRAA, projB>>
+  /\ UNCHANGED <<cvars, nodeOf, everRAA, projB, fw>>
 
 MonIds == [e \in EPsOf(R.node) |->
              LET ks == {k \in 1..Len(R.mons) : R.mons[k].chan = e[1]} IN
@@ -192,10 +233,21 @@ TEvent ==
 
 TProj ==
   /\ IsEvent("proj")
-  /\ UNCHANGED <<cvars, nodeOf, saved, everRAA>>
+  /\ UNCHANGED <<cvars, nodeOf, saved, everRAA, fw>>
   /\ projB' = [n \in DOMAIN projB \cup {<<R.node, R.chan>>} |-> IF n = <<R.node, R.chan>> THEN R ELSE projB[n]]
   \* at the end of a wound-down run nothing is left pending on an open channel
   /\ (R.final /\ ~Closed(EP(R.chan, R.node))) => G1(R.n_in = 0 /\ R.n_out = 0 /\ hs[EP(R.chan, R.node)] = {})
+  \* C02: at the end every preimage the node learned downstream was used upstream, and the node's
+  \* combined irrevocable balance is not below what it started with
+  /\ (R.final /\ ~AnyClosed(R.node)) =>
+        /\ G2(\A p \in fw.downFul : (p[1] = R.node /\ UpAdds(R.node, p[2]) # {}) => p \in fw.upClaimed)
+        \* money: over the HTLCs the node forwarded, what it was paid upstream covers what it paid downstream
+        /\ G2(LET n == R.node
+                   fwd == {a \in fw.adds : a.node = n /\ a.dir = "out" /\ UpAdds(n, a.hash) # {}}
+                   paidOut == FoldSet(LAMBDA a, s : s + (IF <<n, a.hash>> \in fw.downFul THEN a.amt \div 1000 ELSE 0), 0, fwd)
+                   gotIn == FoldSet(LAMBDA a, s : s + (IF <<n, a.hash>> \in fw.upClaimed /\ \E o \in fwd : o.hash = a.hash THEN a.amt \div 1000 ELSE 0), 0,
+                                    {a \in fw.adds : a.node = n /\ a.dir = "in"})
+               IN gotIn >= paidOut)
   \* the projection after a reload equals the one taken before it
   /\ (R.after_reload /\ <<R.node, R.chan>> \in DOMAIN projB) =>
         LET b == projB[<<R.node, R.chan>>] IN
